@@ -301,6 +301,56 @@ def run(chk):
     r5.ob("process_unicode: no further range arms (code points from 0x200000 are rejected)", not extra, g.where, g["q"], "unexpected thresholds %s" % [hex(x) for x in extra])
     r5.require(5, "encoding arms")
 
+    # ------------------------------------------------------------------ R16.7 the floating literal's digit arithmetic
+    r7 = chk.rule("R16.7", "parse_num<T> for floating T accumulates in floating types at least as wide as T (no integer variable is scaled per digit), scales by ten per digit on both sides of the point and applies the exponent as a power of ten",
+                  "a floating literal evaluates to (within a few ulps of) the written value however many digits it has: no accumulator can wrap")
+    RANK = {"float": 1, "double": 2, "long double": 3}
+    pn = [f for f in prog.fns if f["name"] == "parse_num" and f["q"].startswith("chaiscript::parse_num") and f["tk"] == "inst" and
+          prog.T(f, f.get("ret")) in RANK] if any("ret" in f for f in prog.fns[:50]) else []
+    if not pn:
+        pn = [f for f in prog.fns if f["name"] == "parse_num" and f["q"].startswith("chaiscript::parse_num") and f["tk"] == "inst" and
+              any(t in RANK for t in ((prog.decl(f, f.get("id")) or {}).get("targs") or []))]
+    r7.anchor(len(pn) >= 3, "floating instantiations of parse_num (found %d)" % len(pn))
+    chk.touched(pn)
+    seen7 = set()
+    for f in pn:
+        T = next((t for t in ((prog.decl(f, f.get("id")) or {}).get("targs") or []) if t in RANK), None) or prog.T(f, f.get("ret"))
+        if T in seen7 or T not in RANK:
+            continue
+        seen7.add(T)
+        locs = {v["vid"]: v for d in walk(f["body"]) if d.get("k") == "decl" for v in d["vars"]}
+        bad = []
+        scaled = {}
+        for n in walk(f["body"]):
+            if n.get("k") == "assign" and n.get("op") in ("*=", "+=", "/=", "-="):
+                l = strip_casts(n["lhs"])
+                v = locs.get(l.get("vid"))
+                if v is None:
+                    continue
+                vt = prog.T(f, v["t"]).replace("const ", "").strip()
+                if RANK.get(vt, 0) < RANK[T]:
+                    bad.append("`%s` of type %s is updated with %s once per digit" % (v["name"], vt, n["op"]))
+                if n["op"] == "*=":
+                    r = strip_casts(n["rhs"])
+                    scaled.setdefault(v["name"], set()).add(r.get("v") if r.get("k") == "lit" else expr_str(prog, f, r))
+            if n.get("k") == "binop" and n.get("op") == "/":
+                r = strip_casts(n["rhs"])
+                while r.get("k") in ("construct", "call") and r.get("args") and len(r["args"]) == 1 and r.get("name") in (None, "static_cast"):
+                    r = strip_casts(r["args"][0])
+                v = locs.get(r.get("vid"))
+                if v is not None and RANK.get(prog.T(f, v["t"]).replace("const ", "").strip(), 0) < RANK[T]:
+                    bad.append("the digit is divided by `%s` of type %s" % (v["name"], prog.T(f, v["t"])))
+        tens = all(vals <= {10, 10.0} for vals in scaled.values()) and len(scaled) >= 2
+        point = [n for n in walk(f["body"]) if n.get("k") == "assign" and n.get("op") == "=" and strip_casts(n["lhs"]).get("name") == "decimal_place"]
+        point_ok = bool(point) and {strip_casts(n["rhs"]).get("v") for n in point} <= {10, 0, 10.0, 0.0}
+        pw = [n for n in walk(f["body"]) if n.get("k") == "call" and n.get("name") == "pow"]
+        pow_ok = len(pw) == 1 and any(x.get("k") == "lit" and x.get("v") in (10, 10.0) for x in walk(pw[0]["args"][0]))
+        r7.ob("parse_num<%s>: every accumulator is a floating type at least as wide as %s" % (T, T), not bad, f.where, f["q"],
+              "; ".join(bad) + ": an integer (or narrower) accumulator wraps or saturates after a fixed number of digits, the digits after that are scaled by a wrong power of ten")
+        r7.ob("parse_num<%s>: digits are scaled by ten on both sides of the point and the exponent is a power of ten" % T, tens and point_ok and pow_ok, f.where, f["q"],
+              "per-digit factors %s; values given to decimal_place %s; pow base ten: %s" % ({k: sorted(map(str, v)) for k, v in scaled.items()}, [expr_str(prog, f, n["rhs"]) for n in point], pow_ok))
+    r7.require(6, "obligations")
+
     # ------------------------------------------------------------------ R16.6 digit classes
     r6 = chk.rule("R16.6", "the escape decoder classifies characters exactly: octal digits are 0-7, hexadecimal digits are 0-9 a-f A-F (the class predicates are evaluated over all 256 character values)",
                   "octal and hex escapes contain exactly the digits C++ would take; the next character is not swallowed")
